@@ -244,7 +244,10 @@ func (c09) Run(ctx *core.RunCtx) {
 		return
 	}
 	var sc *c09Scheme
-	switch ch.Weighted("scheme", []int{4, 4, 4, 2, 1, 2}) {
+	switch ch.Weighted("scheme", []int{4, 4, 4, 2, 1, 2, 1}) {
+	case 6:
+		c09RingQPRun(ctx)
+		return
 	case 5:
 		sc = c09RLWE(ctx)
 	case 3:
